@@ -33,6 +33,14 @@ CHECKS = {
         note=PROOF_NOTE + "Modelled, not verified: h5py slicing, bisect.bisect_right, numpy concatenate; numpy RandomState / sklearn make_blobs / scipy multivariate_normal behind the synthetic datasets (exercised, not proved).",
         technique="Coq proof (induction over the file list, lia over regenerated window arithmetic) + exact correspondence on generated h5 trees + reproducibility oracles",
         design="§6 C12"),
+    "C16": dict(
+        text="The body of Engine.training_loop is regenerated on every run as a program of a small op language (Backward, DivGrad, Clip, OptStep, SchedStep, ZeroGrad, conditionals on the step condition / k > 1 / clipping) "
+             "and proved equal, for every iteration, state, k >= 1 and clipping flag, to the reference accumulation step; by induction m*k iterations are m optimiser steps, each on the divided/clipped sum of the k gradients "
+             "of its window at the window's parameters with the learning rate of the window's last iteration (nothing dropped or doubled), k = 1 gives one step per batch, the schedule advances once per iteration. "
+             "Parameters, gradients, optimiser and clip are abstract (any model, data, optimiser). The op semantics is tied to torch by exact correspondence through the real Engine.train (SGD, dyadic values).",
+        note=PROOF_NOTE + "Modelled, not verified: torch optimisers, GradScaler(enabled=False), LambdaLR; one backward() per _do_iteration; resume inside an accumulation window (gradients are not checkpointed) is outside the theorem and only exercised.",
+        technique="Coq proof over a loop IR regenerated from the source (case split on guards + induction over iterations) + exact correspondence through the real training loop",
+        design="§6 C16"),
 }
 
 PENDING = {
